@@ -260,6 +260,13 @@ class Evaluator:
         if k == 'pair':
             assert z3.is_int_value(idx.t)
             return S.pair_get(base, idx.t.as_long())
+        if k == 'tmap':
+            return V(base.ty[2], Select(base.t, idx.t))
+        if k == 'opt':
+            # subscripting None raises TypeError
+            if not spec:
+                self.oblige(path, 'noraise', site, Not(S.opt_is_none(base)), 'TypeError')
+            return self.subscript(S.opt_val(base), idx, path, spec, site)
         raise Unsupported('subscript of %r' % (base.ty,))
 
     # -- operators ------------------------------------------------------
@@ -289,7 +296,14 @@ class Evaluator:
         path.guards.append(Not(c))
         b = self.ev(node.orelse, path, spec)
         path.guards.pop()
-        if a.ty != b.ty:
+        def empty_like(m, o):
+            if isinstance(m, tuple) and m and m[0] == 'emptyset' and isinstance(o, V) and o.ty[0] == 'set':
+                return S.set_empty(o.ty[1])
+            if isinstance(m, tuple) and m and m[0] == 'emptyseq' and isinstance(o, V) and o.ty[0] == 'seq':
+                return S.seq_from_list(o.ty[1], [])
+            return m
+        a, b = empty_like(a, b), empty_like(b, a)
+        if not isinstance(a, V) or not isinstance(b, V) or a.ty != b.ty:
             raise Unsupported('if-expression with different types')
         return V(a.ty, If(c, a.t, b.t))
 
@@ -434,6 +448,10 @@ class Evaluator:
         if k == 'dict':
             self.last_trigger = lambda q: Select(S.dict_dom(c), q)
             return c.ty[1], (lambda q: {tgt.id: V(c.ty[1], q)}), (lambda q: S.dict_has(c, q))
+        if k == 'tmap' and spec:
+            # spec only: `for d in T` ranges over every key (a key that was never written holds the empty value, so
+            # clauses of the form `... for d in T for s in T[d]` lose nothing; at run time the written keys are visited)
+            return c.ty[1], (lambda q: {tgt.id: V(c.ty[1], q)}), (lambda q: BoolVal(True))
         raise Unsupported('comprehension over %r' % (c.ty,))
 
     def bind_target(self, tgt, val):
@@ -483,8 +501,23 @@ class Evaluator:
             return ForAll([q], body)
         return Exists([q], And(*conds + [inner]))
 
+    def text_key(self, node, path):
+        """(source text, values of its free names): the same expression over the same state denotes the same value"""
+        k = ('text',) + self.state_key(node, path)
+        self.eng.keepalive.append([path.env.get(n.id) for n in ast.walk(node) if isinstance(n, ast.Name)])
+        return k
+
     def ev_SetComp(self, node, path, spec):
         # {elt for ... if ...}  as a membership predicate
+        tk = None
+        if not self.eng.in_axiom:
+            tk = self.text_key(node, path)
+            hit = self.eng.set_cache.get(tk)
+            if hit is not None:
+                sc, ax = hit[0], hit[1]
+                if not any(ax.eq(h) for h in path.hyps):
+                    path.hyps.append(ax)
+                return V(hit[2], sc)
         saved = dict(path.env)
         probe = self.probe_type(node.elt, node.generators, path, spec)
         y = z3.FreshConst(S.sort_of(probe), 'y')
@@ -553,6 +586,8 @@ class Evaluator:
             self.eng.set_cache[key] = (sc, ax)
         if not any(ax.eq(h) for h in path.hyps):
             path.hyps.append(ax)
+        if tk is not None:
+            self.eng.set_cache[tk] = (sc, ax, ('set', probe))
         return V(('set', probe), sc)
 
     def is_closed(self, term):
@@ -712,6 +747,9 @@ class Engine:
             f = path.assume(goal)
             if kind == 'cut':
                 self.labels[f.get_id()] = clause
+            elif site.startswith('assert '):
+                # the asserted condition holds afterwards; a proof hint can drop it with '-fact:assert'
+                self.labels.setdefault(f.get_id(), 'fact:assert')
 
     def add_axiom(self, key, formula):
         if key not in self._axiom_keys:
@@ -858,7 +896,8 @@ class Engine:
         path.assume(ForAll([k], Implies(And(0 <= k, k < S.seq_n(r)), Select(s.t, Select(S.seq_arr(r), k))),
                            patterns=[Select(S.seq_arr(r), k)]))
         path.assume(ForAll([x], Implies(Select(s.t, x), S.seq_mem(r, x))))
-        path.assume(S.seq_n(r) == S.set_card(s))     # a duplicate-free enumeration of S has |S| elements
+        f = path.assume(S.seq_n(r) == S.set_card(s))     # a duplicate-free enumeration of S has |S| elements
+        self.labels.setdefault(f.get_id(), 'fact:card-list')
         self.assumptions_used.add('sets are finite (list(S) exists)')
         return r
 
@@ -1227,6 +1266,66 @@ class Engine:
             return V(T_NAME, t)
         if name == 'rind':
             return self.rind(ev, node, path, spec)
+        if name == 'identical':
+            # equality of two sets / maps as SMT array terms (extensional in the array theory, hence the same as ==);
+            # assumed, it lets congruence identify uninterpreted predicates over the two terms
+            a_, b_ = self.to_set(E(0)) if not (isinstance(E(0), V) and E(0).ty[0] == 'tmap') else E(0), None
+            b_ = self.to_set(E(1)) if not (isinstance(E(1), V) and E(1).ty[0] == 'tmap') else E(1)
+            return S.vbool(a_.t == b_.t)
+        if name == 'tmap':
+            # tmap(lambda d: <set expression>): the total map d -> set, as a named constant with its pointwise definition
+            lam = node.args[0]
+            if not isinstance(lam, ast.Lambda) or len(lam.args.args) != 1:
+                raise Unsupported('tmap needs a one-argument lambda')
+            kt = T_NAME
+            tk = None
+            if not self.in_axiom:
+                tk = ev.text_key(lam, path)
+                hit = self.set_cache.get(tk)
+                if hit is not None:
+                    if not any(hit[1].eq(h) for h in path.hyps):
+                        path.hyps.append(hit[1])
+                    return V(hit[2], hit[0])
+            d = z3.FreshConst(S.sort_of(kt), 'td')
+            saved = dict(path.env)
+            path.env[lam.args.args[0].arg] = V(kt, d)
+            ev.qdepth += 1
+            ev.bound.append(d)
+            try:
+                body = ev.ev(lam.body, path, True)
+            finally:
+                ev.qdepth -= 1
+                ev.bound.pop()
+                path.env.clear()
+                path.env.update(saved)
+            body = self.to_set(body)
+            ty = ('tmap', kt, body.ty)
+            x = z3.FreshConst(S.sort_of(body.ty[1]), 'tx')
+            if self.in_axiom or not ev.is_closed(body.t):
+                return V(ty, z3.Lambda([d], body.t))
+            # closed: a named constant with its pointwise definition; the same body over the same state is the same constant
+            canon = z3.Const('canon!td', S.sort_of(kt))
+            fc = z3.substitute(body.t, (d, canon))
+            key = ('tmapbody', fc.get_id())
+            self.keepalive.append(fc)
+            hit = self.set_cache.get(key)
+            if hit is None:
+                rc = z3.FreshConst(S.sort_of(ty), 'tmap')
+                bt = body.t
+                member = z3.substitute_vars(bt.body(), x) if (z3.is_quantifier(bt) and bt.is_lambda() and bt.num_vars() == 1) else Select(bt, x)
+                ax = S.forall_p([d, x], Select(Select(rc, d), x) == member, [Select(Select(rc, d), x)])
+                hit = (rc, ax)
+                self.set_cache[key] = hit
+            rc, ax = hit[0], hit[1]
+            if not any(ax.eq(h) for h in path.hyps):
+                path.hyps.append(ax)
+            if tk is not None:
+                self.set_cache[tk] = (rc, ax, ty)
+            return V(ty, rc)
+        if name == 'dominates':
+            return self.dominates(ev, node, path, spec)
+        if name == 'dgfp':
+            return self.dgfp(ev, node, path, spec)
         if name == 'without':
             d, ns_ = E(0), self.to_set(E(1))
             x = z3.FreshConst(S.sort_of(d.ty[1]), 'wx')
@@ -1247,6 +1346,34 @@ class Engine:
         return NotImplemented
 
     def call_ext(self, ev, fv, node, path, spec):
+        what = tuple(fv[1:])
+        if what == ('collections', 'defaultdict') and len(node.args) == 1 and isinstance(node.args[0], ast.Name) \
+                and node.args[0].id in ('set', 'list', 'dict', 'int'):
+            return ('emptytmap', node.args[0].id)
+        if what == ('functools', 'reduce') and len(node.args) == 2 and ast.unparse(node.args[0]) == 'set.intersection' \
+                and isinstance(node.args[1], ast.ListComp) and len(node.args[1].generators) == 1 and not node.args[1].generators[0].ifs \
+                and isinstance(node.args[1].generators[0].target, ast.Name):
+            # functools.reduce(set.intersection, [E(p) for p in C]): the intersection of the family (the fold order
+            # is irrelevant: intersection is associative and commutative); TypeError on an empty list
+            g = node.args[1].generators[0]
+            coll = ev.ev(g.iter, path, spec)
+            cs_ = self.to_set(coll)
+            pv = S.fresh(cs_.ty[1], 'rp')
+            if not spec:
+                self.add_obligation(path, 'noraise', ast.unparse(node), as_bool(cs_), 'TypeError')
+            # E(p) is evaluated for every p of the collection: its own obligations (KeyError ...) under p in C
+            p2 = path.copy()
+            p2.env = dict(path.env)
+            p2.env[g.target.id] = pv
+            p2.assume(Select(cs_.t, pv.t))
+            fam = ev.ev(node.args[1].elt, p2, spec)
+            if fam.ty[0] != 'set':
+                raise Unsupported('reduce(set.intersection) over non-sets')
+            x = z3.FreshConst(S.sort_of(fam.ty[1]), 'ix')
+            r = S.fresh(fam.ty, 'inter')
+            body = ForAll([pv.t], Implies(Select(cs_.t, pv.t), Select(fam.t, x)))
+            path.hyps.append(S.forall_p([x], Select(r.t, x) == body, [Select(r.t, x)]))
+            return r
         raise Unsupported('external call ' + '.'.join(str(x) for x in fv[1:]))
 
     # ---- methods on symbolic built-in values ---------------------------------
@@ -1407,6 +1534,51 @@ class Engine:
         concl = ForAll([y], Implies(R(g.t, a.t, y), Select(st.t, y)), patterns=[R(g.t, a.t, y)])
         return S.vbool(Implies(And(prem1, prem2), concl))
 
+    # ---- dominance (uninterpreted Dom with the local axioms D-entry / D-step; D-gfp by instance) -------------
+    def dom_pred(self, E, P):
+        return ufun('Dom', E.t.sort(), P.t.sort(), S.sort_of(T_NAME), S.sort_of(T_NAME), z3.BoolSort())
+
+    def dominates(self, ev, node, path, spec):
+        """dominates(entries, preds, a, n): every path e = v0 -> ... -> vk = n (k >= 0, e an entry, v_i in preds[v_i+1])
+        passes a.  Given to the solver through two local consequences of that definition (DESIGN section 6):
+          D-entry  for an entry e:  dominates(a, e) <=> a == e      (the path of length 0)
+          D-step   dominates(a, n), a != n, p in preds[n]  =>  dominates(a, p)   (extend a path to p by the edge p -> n)"""
+        E, P, a, n = (ev.ev(x, path, spec) for x in node.args)
+        D = self.dom_pred(E, P)
+        key = ('dom', E.t.get_id(), P.t.get_id())
+        if key not in self._axiom_keys and ev.is_closed(E.t) and ev.is_closed(P.t):
+            self._axiom_keys.add(key)
+            x, y, z = (z3.Const(c, S.sort_of(T_NAME)) for c in ('dx', 'dy', 'dz'))
+            entry = ForAll([x, y], Implies(Select(E.t, y), D(E.t, P.t, x, y) == (x == y)), patterns=[D(E.t, P.t, x, y)])
+            step = ForAll([x, y, z], Implies(And(D(E.t, P.t, x, y), x != y, Select(Select(P.t, y), z)), D(E.t, P.t, x, z)),
+                          patterns=[z3.MultiPattern(D(E.t, P.t, x, y), Select(Select(P.t, y), z))])
+            refl = ForAll([x], D(E.t, P.t, x, x), patterns=[D(E.t, P.t, x, x)])
+            path.hyps.extend([entry, step, refl])
+            self.assumptions_used.add('Dom: path-based dominance given to the solver by its consequences D-entry, D-step, D-refl '
+                                      'and explicitly instantiated D-gfp (DESIGN section 6; each evaluated against the brute-force '
+                                      'definition at run time)')
+        return S.vbool(D(E.t, P.t, a.t, n.t))
+
+    def dgfp(self, ev, node, path, spec):
+        """D-gfp instance: a family X with X[e] <= {e} on the entries and X[n] <= {n} | inter(X[p] for p in preds[n]) on the
+        other nodes (all predecessors of nodes being nodes) contains only dominators (induction on the length of the
+        entry-to-n path)."""
+        E, P, nodes, X = (ev.ev(x, path, spec) for x in node.args)
+        D = self.dom_pred(E, P)
+        if isinstance(nodes, V) and nodes.ty[0] == 'seq' and ev.is_closed(nodes.t):
+            ns = ev.named_set_of_seq(nodes, path)
+        else:
+            ns = self.to_set(nodes)
+        x, y, z = (z3.FreshConst(S.sort_of(T_NAME), c) for c in ('gx', 'gy', 'gz'))
+        inX = lambda n_, a_: And(S.dict_has(X, n_), Select(S.dict_get(X, n_).t, a_))
+        prem_e = ForAll([y, x], Implies(And(Select(E.t, y), inX(y, x)), x == y))
+        prem_n = ForAll([y, x], Implies(And(Select(ns.t, y), Not(Select(E.t, y)), inX(y, x), x != y),
+                                        ForAll([z], Implies(Select(Select(P.t, y), z), inX(z, x)))))
+        prem_c = ForAll([y, z], Implies(And(Select(ns.t, y), Select(Select(P.t, y), z)), Select(ns.t, z)))
+        concl = ForAll([y, x], Implies(And(Select(ns.t, y), inX(y, x)), D(E.t, P.t, x, y)),
+                       patterns=[z3.MultiPattern(Select(S.dict_get(X, y).t, x))])
+        return S.vbool(Implies(And(prem_e, prem_n, prem_c), concl))
+
     def dict_store(self, d, key, val, path):
         """d[key] = val as a named dictionary with two-direction triggered frame axioms."""
         r = S.fresh(d.ty, 'dupd')
@@ -1415,6 +1587,15 @@ class Engine:
         path.hyps.append(And(Select(rd, key), Select(rv, key) == val))
         body = Implies(k != key, And(Select(rd, k) == Select(dd, k), Select(rv, k) == Select(dv, k)))
         for pat in (Select(rv, k), Select(dv, k), Select(rd, k), Select(dd, k)):
+            path.hyps.append(S.forall_p([k], body, [pat]))
+        return r
+
+    def tmap_store(self, d, key, val, path):
+        r = S.fresh(d.ty, 'tupd')
+        k = z3.FreshConst(S.sort_of(d.ty[1]), 'tk')
+        path.hyps.append(Select(r.t, key) == val)
+        body = Implies(k != key, Select(r.t, k) == Select(d.t, k))
+        for pat in (Select(r.t, k), Select(d.t, k)):
             path.hyps.append(S.forall_p([k], body, [pat]))
         return r
 
@@ -1484,6 +1665,8 @@ class Engine:
                 new = self.seq_store(base, idx.t, self.coerce(val, base.ty[1], ev).t, n, path)
             elif base.ty[0] == 'dict':
                 new = self.dict_store(base, idx.t, self.coerce(val, base.ty[2], ev).t, path)
+            elif base.ty[0] == 'tmap':
+                new = self.tmap_store(base, idx.t, self.coerce(val, base.ty[2], ev).t, path)
             else:
                 raise Unsupported('subscript store on %r' % (base.ty,))
             self.assign_to(ev, target.value, new, path)
@@ -1790,6 +1973,8 @@ class Engine:
         if self.c.cuts:
             src = ast.unparse(st)
             for key, clauses in self.c.cuts.items():
+                if key.startswith('end:'):
+                    continue
                 base, _, ordn = key.partition('#')
                 if src.startswith(base):
                     if ordn:
@@ -1808,6 +1993,8 @@ class Engine:
         return [(path, None)]
 
     def st_Import(self, st, path):
+        for a in st.names:
+            path.env[a.asname or a.name] = ('extref', a.name)
         return [(path, None)]
 
     def st_ImportFrom(self, st, path):
@@ -1857,6 +2044,10 @@ class Engine:
             return S.set_empty(ty[1])
         if ty[0] == 'dict':
             return S.dict_empty(ty[1], ty[2])
+        if ty[0] == 'tmap':
+            if ty[2][0] != 'set':
+                raise Unsupported('defaultdict factory %r' % (ty[2],))
+            return V(ty, z3.K(S.sort_of(ty[1]), S.set_empty(ty[2][1]).t))
         raise Unsupported('typed empty %r' % (ty,))
 
     def st_Assign(self, st, path):
@@ -1880,7 +2071,7 @@ class Engine:
             val = self.typed_empty(tname, None)
         else:
             val = ev.ev(v, path, False)
-            if isinstance(val, tuple) and val[0] in ('emptyseq', 'emptyset', 'emptydict'):
+            if isinstance(val, tuple) and val[0] in ('emptyseq', 'emptyset', 'emptydict', 'emptytmap'):
                 val = self.typed_empty(tname, None)
         if isinstance(val, V) and tname is not None and val.ty[0] in ('seq', 'block', 'dict') \
                 and not z3.is_const(val.t) and self.term_size(val.t) > int(os.environ.get('PYVC_LET', '3')):
@@ -1940,7 +2131,12 @@ class Engine:
             f = {ast.BitOr: Or(Select(cur.t, x), Select(o.t, x)),
                  ast.Sub: And(Select(cur.t, x), Not(Select(o.t, x))),
                  ast.BitAnd: And(Select(cur.t, x), Select(o.t, x))}[op]
-            new = V(cur.ty, z3.Lambda([x], f))
+            # named result with its definition triggered from the result and from both operands
+            new = S.fresh(cur.ty, 'setaug')
+            body_ = Select(new.t, x) == f
+            pats = [Select(new.t, x)] + [Select(t_, x) for t_ in (cur.t, o.t) if z3.is_const(t_) and t_.decl().kind() == z3.Z3_OP_UNINTERPRETED]
+            for pat in pats:
+                path.hyps.append(S.forall_p([x], body_, [pat]))
         else:
             raise Unsupported('augmented assignment')
         self.assign_target(ev, st.target, new, path)
@@ -2184,7 +2380,8 @@ class Engine:
     def assume_lemmas(self, spec, env, path):
         """Axiom instances (e.g. the closure principle of reachability) assumed at the loop head."""
         for cn, text in spec.assume.items():
-            path.assume(self.spec_formula(ast.parse(text, mode='eval').body, env, path))
+            f = path.assume(self.spec_formula(ast.parse(text, mode='eval').body, env, path))
+            self.labels[f.get_id()] = cn       # selectable by proof hints
             self.assumptions_used.add('axiom instance %s: %s' % (cn, text))
 
     def st_For(self, st, path):
@@ -2362,12 +2559,23 @@ class Engine:
         c = ev.ev_bool(st.test, p, False)
         pb = p.copy()
         pb.assume(c)
+        # `it0.<var>`: the value at the start of the current iteration (usable in cuts inside the body)
+        it_ns = Namespace(dict(pb.env))
+        pb.env['it0'] = it_ns
+        base_env = lambda p_: dict(p_.env, entry=entry, old=self.old_ns, it0=it_ns)
         measure0 = None
         if spec.decreases:
             measure0 = self.spec_eval(spec.decreases, base_env(pb), pb)
         outs = self.run(st.body, pb)
+        end_cuts = self.c.cuts.get('end:' + key)
+        if end_cuts:
+            self.bound_cuts.add('end:' + key)
         for p2, o in outs:
             if o in (None, 'continue'):
+                # lemmas at the end of the body (proved, then assumed), before the invariant is re-established
+                for cn, text in (end_cuts or {}).items():
+                    g = self.spec_formula(ast.parse(text, mode='eval').body, base_env(p2), p2)
+                    self.add_obligation(p2, 'cut', 'end:%s:%s' % (key[:40], cn), g)
                 self.check_inv(spec, key, base_env(p2), p2, 'inv-step')
                 if measure0 is not None:
                     m1 = self.spec_eval(spec.decreases, base_env(p2), p2)
@@ -2426,7 +2634,9 @@ class Engine:
             env['_yielded'] = S.set_empty(S.parse_type(c.returns)[1])
         path = Path(env, [])
         for cn, text in c.requires.items():
-            path.assume(self.spec_bool(text, self.pre_env, path))
+            f = path.assume(self.spec_bool(text, self.pre_env, path))
+            # kept by every proof hint unless the hint lists '-requires:<clause>'
+            self.labels.setdefault(f.get_id(), 'requires:' + cn)
         for kid, text in c.known.items():
             path.assume(Not(self.spec_bool(text, self.pre_env, path)))
         for cn, text in c.lemmas.items():
